@@ -483,7 +483,7 @@ func init() {
 		Rule: "cases 0..14519 enumerate every (visible name of length 1..4, word of length 0..4) pair over {a,b,é} exhaustively, cases 14520..21659 every (name of length 1..3, word of length 0..3) pair over {a,é,ĩ,ũ} (characters whose UTF-8 encodings share their last byte); the rest are seeded random sets of 0-8 visible and 0-3 hidden names (near relatives of each other) with words that are near misses of visible/hidden names, unrelated, very short/long, or absent. " +
 			"A case is non-trivial when ParseArgs produced an ErrUnknownCommand/ErrCommandRequired diagnosis that the oracle judged against the rune-Levenshtein reference; distinct = distinct (cell, #visible, min distance, #ties, word length).",
 		Assumptions: []string{"ties at minimum distance: any minimal name is accepted", "when byte and rune length of the candidate put dist/len on different sides of 0.5 the case is unspecified", "names contain no ', ' or ' or ' so the enumeration can be split unambiguously"},
-		Technique:   "runtime reference-model monitor: every diagnosis compared with an independent rune-Levenshtein oracle; exhaustive small-scope enumeration + seeded random sets",
+		Technique:   "runtime reference-model monitor: every diagnosis compared with an independent rune-Levenshtein oracle; exhaustive small-scope enumeration + seeded random sets; multi-step histories on one parser with direct oracles",
 		LevelText:   "Exploration: the suggestion/enumeration logic is executed on every string pair of a small alphabet (exhaustive to length 4) and on ~10^4..10^6 random command sets and judged by an independent distance function; this is the right level because the claim is a pure function of (word, names) whose faults are input-shaped, not schedule-shaped.",
 		LevelNote:   "Trusted: the harness's own textbook Levenshtein (self-tested against hand-computed values), message format parsing of the back-quoted word/suggestion and the comma/or list.",
 		DesignRef:   "§4 C20",
